@@ -183,6 +183,19 @@ func (e *Enc) callEffect(c ssa.CallInstruction) callEff {
 }
 
 func (e *Enc) call(x *ssa.Call, st *State) {
+	e.callInner(x, st)
+	// object invariants hold again after any call: callees may write the fields, but every writer re-establishes them
+	if e.Ct != nil && len(e.Ct.ObjInv) > 0 {
+		if _, isBuiltin := x.Common().Value.(*ssa.Builtin); !isBuiltin {
+			env := e.fnEnv(st, nil)
+			for _, c := range e.Ct.ObjInv {
+				e.emitAssert(e.curBlock, implies(e.reachHere(), e.evalHyp(c.Expr, env)))
+			}
+		}
+	}
+}
+
+func (e *Enc) callInner(x *ssa.Call, st *State) {
 	m := e.M
 	com := x.Common()
 	if b, ok := com.Value.(*ssa.Builtin); ok {
